@@ -52,3 +52,7 @@ pub uninterp spec fn usize_to_f64(n: usize) -> f64;
 pub fn vcast_usize_f64(n: usize) -> (r: f64)
     ensures r == usize_to_f64(n)
 { n as f64 }
+
+// ---- A4: f64::is_nan is "x != x" (IEEE) ----
+pub assume_specification[ f64::is_nan ](x: f64) -> (r: bool)
+    ensures r == !feq(x, x);
